@@ -319,8 +319,8 @@ func NewScanner(client LogClient, opts ScannerOptions) *Scanner {
 	scanner.fetcher = NewFetcher(client, &scanner.opts.FetcherOptions)
 
 	// Set a default match-everything regex if none was provided.
-	if opts.Matcher == nil {
-		opts.Matcher = &MatchAll{}
+	if scanner.opts.Matcher == nil {
+		scanner.opts.Matcher = &MatchAll{}
 	}
 	return &scanner
 }
